@@ -64,6 +64,7 @@ class Ctx:
         self.digest = Digest()
         self.numdigest = NumDigest(self)  # numbers only (hash-seed comparison)
         self.numlog = []  # (op index, hash of the numbers) per judged call
+        self.random_seed = 20240101
         self.nontrivial = set()
         self.evaluations = 0
         self.sigs = set()
@@ -364,7 +365,8 @@ def _calls_params(rng, prop):
         "rule": rng.choice(["uniform", "skill", "upset", "tie"]),
         "pristine_refs": rng.random() < 0.35,
         "fixed_rosters": rng.random() < 0.4,
-        "shape": rng.choice([[4, 3], [4, 3], [4, 3], [6, 4], [8, 8]]),
+        "shape": rng.choice([[4, 3], [4, 3], [4, 3], [6, 4], [8, 8], [12, 2]]),
+        "p_extreme": rng.choice([0.0, 0.03, 0.1]),
         "p_other_model": rng.choice([0.0, 0.05, 0.15]),
     }
 
@@ -452,6 +454,8 @@ class CallsDriver:
                 return {"op": "RESTART", "scope": scope, "paths": [frng.choice(["rating", "create_rating", "deepcopy"]) for _ in scope]}
         if rng.random() < p.get("p_other_model", 0.0):
             return self.gen_other_model(rng)
+        if rng.random() < p.get("p_extreme", 0.0):
+            return self.gen_extreme(rng)
         r = rng.random()
         if p["threaded"] and r < 0.5:
             op = self.gen_concurrent(rng, names)
@@ -472,6 +476,24 @@ class CallsDriver:
         if self._rosters is None:
             self._rosters = make_rosters(rng, names)
         return self._rosters
+
+    def gen_extreme(self, rng):
+        """Somebody calls the shared model with well-typed but absurd values (far outside the
+        valid domain: the call may well raise OverflowError or ZeroDivisionError - that is not
+        judged).  Whatever happens, the model must be unchanged and later calls unaffected."""
+        b = self.league.dom.beta
+        n = rng.choice([2, 3, 3, 9])
+        vals = []
+        for i in range(n):
+            mu = rng.choice([1e4, -1e4, 1e6, 3e7, 1e300, -1e300, 7e3]) * b * rng.choice([1, 1, -1])
+            sg = rng.choice([1e-300, 1e300, 1e160, 1.0, 1e-9]) * (b if rng.random() < 0.5 else 1.0)
+            if rng.random() < 0.5:
+                mu = abs(mu)  # everybody huge in the same direction: exp() overflows everywhere
+            vals.append([enc(float(mu)), enc(float(sg))])
+        call = {"op": "RATE", "teams": [["x%d" % i] for i in range(n)]}
+        if rng.random() < 0.5:
+            call.update(encode_outcome(rng, weak_order(rng, n, "tie")))
+        return {"op": "EXTREME", "values": vals, "call": call, "predict": rng.choice(["win", "draw", "rank", None])}
 
     def gen_other_model(self, rng):
         """A SECOND model object (same or another class, other parameters) is constructed and
@@ -586,8 +608,28 @@ class CallsDriver:
             self.exec_concurrent(op)
         elif kind == "OTHER_MODEL":
             self.exec_other_model(op)
+        elif kind == "EXTREME":
+            self.exec_extreme(op)
         else:
             raise HarnessError("unknown op %r" % kind)
+
+    def exec_extreme(self, op):
+        ctx = self.ctx
+        m = self.league.model
+        fac = self.league.factory
+        teams = [[fac.rating(mu=dec(mu), sigma=dec(sg), name="x%d" % i)] for i, (mu, sg) in enumerate(op["values"])]
+        kw = rate_kwargs(op["call"])
+        pre = model_state(m)
+        outs = []
+        if op.get("predict"):
+            st, val = call_outcome(lambda: do_predict(m, op["predict"], teams))
+            outs.append(st if st == "ok" else type(val).__name__)
+        st, val = call_outcome(lambda: m.rate(teams, **kw))
+        outs.append(st if st == "ok" else type(val).__name__)
+        ctx.fault("extreme_values_call")
+        self.check_model(pre, "EXTREME")
+        ctx.log("EXTREME", outs)
+        self.prev = "reject"
 
     def exec_other_model(self, op):
         ctx = self.ctx
@@ -1243,6 +1285,7 @@ def c20_params(rng):
         "rule": rng.choice(["uniform", "skill", "tie"]),
         "bench": rng.random() < 0.6,
         "fixed_rosters": rng.random() < 0.5,
+        "reseed_random": rng.random() < 0.5,
     }
 
 
@@ -1320,7 +1363,10 @@ class StoreDriver:
                 full = False
             one = frng.choice(["rating", "create_rating", "deepcopy", None, None])
             paths = [one or frng.choice(["rating", "create_rating", "deepcopy"]) for _ in scope]
-            return {"op": "RESTART", "scope": scope, "paths": paths, "full": full}
+            op = {"op": "RESTART", "scope": scope, "paths": paths, "full": full}
+            if full and frng.random() < 0.6:
+                op["new_process"] = True
+            return op
         if r < p["p_restart"] + p["p_crash"]:
             inner = gen_rate_op(rng, ctx, self.A, names, p["opt_rate"], maker=p["maker"], rule=p["rule"])
             if inner:
@@ -1330,6 +1376,8 @@ class StoreDriver:
             inner = gen_rate_op(rng, ctx, self.A, names, p["opt_rate"], maker=p["maker"], rule=p["rule"])
             if inner:
                 return {"op": "ABORT", "inner": inner, "at": int(1 + 500 * frng.random() ** 2), "path": frng.choice(["rating", "create_rating"])}
+        if r > 0.985 and p.get("reseed_random"):
+            return {"op": "RESEED_RANDOM"}
         if r < p.get("p_abort", 0.0) + p.get("p_fork", 0.0):
             return {"op": "FORK_RESTORE", "names": frng.sample(allnames, min(len(allnames), frng.randint(1, 4))), "paths": [frng.choice(["rating", "create_rating"]) for _ in range(4)], "new": frng.randint(0, 2)}
         r = rng.random()
@@ -1448,13 +1496,58 @@ class StoreDriver:
             ctx.probe("predict_on_restored")
         ctx.log("PREDICT", ra["out"])
 
+    def process_death(self, paths=None):
+        """League B's process dies and a new one starts: a FRESH IMPORT of the library (module
+        globals, class attributes, caches start from scratch), a new model object, every
+        player rebuilt from the store.  League A is the process that never died: it keeps its
+        import, its model object and its rating objects.  Whatever differs afterwards lived in
+        something the restart dropped."""
+        import core
+
+        ctx = self.ctx
+        B = self.B
+        B.lib = core.fresh_models(instrument=True)
+        B.model = build_model(ctx.cfg, lib=B.lib)
+        B.factory = B.model
+        B.forget_rosters()
+        ctx.fault("process_restart_fresh_import")
+        names = sorted(B.players)
+        for k, n in enumerate(names):
+            path = (paths or {}).get(n) or ("rating", "create_rating")[k % 2]
+            if path == "deepcopy":
+                path = "rating"  # objects do not survive a process
+            restore_player(ctx, B, n, path, self.ids, check=True)
+            self.last_paths = dict(self.last_paths)
+            self.last_paths[n] = "newproc+" + path
+            self.restored.add(n)
+            self.ever_restored.add(n)
+
+    def op_RESEED_RANDOM(self, op):
+        """Application code re-seeds the GLOBAL random module with the value it always uses
+        (reproducible fixtures, simulations): nothing the library hands out may repeat."""
+        import random as _random
+
+        _random.seed(self.ctx.random_seed)
+        self.ctx.fault("global_random_reseeded")
+        self.ctx.log("RESEED_RANDOM")
+
     def op_RESTART(self, op):
         ctx = self.ctx
+        if op.get("full") and op.get("new_process"):
+            ctx.fault("restart_full")
+            self.process_death(dict(zip(op["scope"], op["paths"])))
+            for n in op["scope"]:
+                if n in self.played:
+                    ctx.probe("restart_between_games_of_player")
+            ctx.log("RESTART", "new_process")
+            return
         if op.get("full"):
-            # the process died: the model object is rebuilt from its constructor kwargs - in
-            # BOTH twins, so that they differ only in their rating objects
+            # an in-process re-initialisation: the model object is rebuilt from its
+            # constructor kwargs - in BOTH twins, so that they differ only in their rating objects
             self.A.model = build_model(ctx.cfg)
-            self.B.model = build_model(ctx.cfg)
+            self.A.factory = self.A.model
+            self.B.model = build_model(ctx.cfg, lib=self.B.lib)
+            self.B.factory = self.B.model
             ctx.fault("restart_full")
         else:
             ctx.fault("restart_partial")
@@ -1496,18 +1589,10 @@ class StoreDriver:
             ctx.fault("crash_line")
             before_first = all(enc(p.mu) == enc(self.B.stored(n)[0]) and enc(p.sigma) == enc(self.B.stored(n)[1]) for n, p in zip(flat(names), [p for t in teams for p in t]))
             ctx.probe("crash_before_first_mutation" if before_first else "crash_after_mutation")
-            for n in flat(names):
-                restore_player(ctx, self.B, n, op.get("path", "rating"), self.ids, check=True)
-                self.last_paths = dict(self.last_paths)
-                self.last_paths[n] = "crash+" + op.get("path", "rating")
-                self.restored.add(n)
-                self.ever_restored.add(n)
             ctx.log("CRASH", list(lc.fired_loc))
-            # the process died with the call: its model object is gone too.  Both twins get a
-            # fresh model, so that they keep differing only in their rating objects (what a
-            # killed call does to a model that lives on is C14's business, not C20's)
-            self.A.model = build_model(ctx.cfg)
-            self.B.model = build_model(ctx.cfg)
+            # the process died with the call: league B comes back as a new process (fresh
+            # import, fresh model, every player rebuilt from the store); league A never crashed
+            self.process_death({n: op.get("path", "rating") for n in flat(names)})
         else:
             # the call completed before the crash point: B's objects now hold the posterior
             # but nothing was committed; restore from the store all the same
